@@ -31,7 +31,9 @@ def prove(assumptions, goal, timeout_ms=DEFAULT_TIMEOUT_MS, seed=0, use_cvc5=Tru
     neg = z3.Not(goal)
     fs = [f for f in assumptions if not z3.is_true(f)] + [neg] + list(extra)
     inst = axioms.instantiate(fs)
-    s = _mk_solver(timeout_ms, seed)
+    # portfolio: z3 default (short) -> nlsat tactic -> cvc5 -> z3 default (full budget, other seed)
+    short = min(timeout_ms, 4000)
+    s = _mk_solver(short, seed)
     s.add(*fs)
     s.add(*inst)
     r = s.check()
@@ -40,11 +42,20 @@ def prove(assumptions, goal, timeout_ms=DEFAULT_TIMEOUT_MS, seed=0, use_cvc5=Tru
     if r == z3.sat:
         return Verdict("failed", time.time() - t0, "z3", model=s.model(), n_instances=len(inst))
     reason = s.reason_unknown()
+    try:
+        tac = z3.Then("simplify", "solve-eqs", "qfnra-nlsat").solver()
+        tac.set("timeout", min(timeout_ms, 15000))
+        tac.add(*fs)
+        tac.add(*inst)
+        r1 = tac.check()
+        if r1 == z3.unsat:
+            return Verdict("proved", time.time() - t0, "z3-nlsat", n_instances=len(inst))
+    except z3.Z3Exception:
+        pass
     if use_cvc5:
-        v = _cvc5_check(s, timeout_ms)
+        v = _cvc5_check(s, min(timeout_ms, 15000))
         if v is not None:
             return Verdict(v, time.time() - t0, "cvc5", n_instances=len(inst), reason="z3: " + reason)
-    # one more z3 attempt with another seed
     s2 = _mk_solver(timeout_ms, seed + 17)
     s2.add(*fs)
     s2.add(*inst)
@@ -53,7 +64,7 @@ def prove(assumptions, goal, timeout_ms=DEFAULT_TIMEOUT_MS, seed=0, use_cvc5=Tru
         return Verdict("proved", time.time() - t0, "z3(seed2)", n_instances=len(inst))
     if r2 == z3.sat:
         return Verdict("failed", time.time() - t0, "z3(seed2)", model=s2.model(), n_instances=len(inst))
-    return Verdict("unknown", time.time() - t0, "z3+cvc5", n_instances=len(inst), reason=reason)
+    return Verdict("unknown", time.time() - t0, "z3+nlsat+cvc5", n_instances=len(inst), reason=reason)
 
 
 def _cvc5_check(s, timeout_ms):
